@@ -420,6 +420,8 @@ func c19Dynamic(cs *caseSet, nVal int) {
 				rg := mk(e, ev)
 				why := "WrapResponse/UnwrapResponse/IsException must map a declared exception to the result struct and back without loss"
 				cs.add(opCase{Kind: "C19 WrapResponse(exception)", Impl: fmt.Sprintf("hwrap %s exc %d %s", key, e-first, ev.Text()), Want: "ok " + rg.Text(), Why: why, nontrivial: true})
+				cs.add(opCase{Kind: "C19 WrapResponse(undeclared error that wraps a declared exception)", Impl: fmt.Sprintf("hwrap %s wrapped %d %s", key, e-first, ev.Text()), Want: "err",
+					Why: "an error whose own type the function does not declare must be refused, whatever it wraps (taking the exception out of its chain would also drop the error that was returned)", nontrivial: true})
 				cs.add(opCase{Kind: "C19 UnwrapResponse(exception)", Impl: "hunwrap " + key + " " + rg.Text(), Want: fmt.Sprintf("ok exc %d %s", e-first, ev.Text()), Why: why, nontrivial: true})
 				cs.add(opCase{Kind: "C19 IsException(declared)", Impl: fmt.Sprintf("hisexc %s exc %d %s", key, e-first, ev.Text()), Want: "ok 1", Why: why, nontrivial: true})
 				if i == 0 {
